@@ -12,6 +12,29 @@ from .report import Report
 
 PROPS = ["C%02d" % i for i in range(1, 21)]
 
+# Rules of other properties that each property also relies on: a change that breaks the property through
+# one of them must be reported by *this* property's check too (not only by the owner's).
+SHARED = {
+    "C01": {"c08": ["R8.1"], "c07": ["R7.2", "R7.3", "R7.8"], "c16": ["R16.2"], "c03": ["R3.3"], "c12": ["R12.3"]},
+    "C02": {"c06": ["R6.1", "R6.2"], "c07": ["R7.2"], "c11": ["R11.5"], "c01": ["R1.5", "R1.6", "R1.3"]},
+    "C03": {"c01": ["R1.1", "R1.2"], "c13": ["R13.2"], "c07": ["R7.5", "R7.8", "R7.7"], "c09": ["R9.4"]},
+    "C04": {"c01": ["R1.9", "R1.2"], "c07": ["R7.2", "R7.3"], "c16": ["R16.2", "R16.4"], "c02": ["R2.1"]},
+    "C05": {"c07": ["R7.1"], "c12": ["R12.2"], "c01": ["R1.3", "R1.4"], "c06": ["R6.4"], "c02": ["R2.4"]},
+    "C06": {"c02": ["R2.1", "R2.4", "R2.5"], "c05": ["R5.2", "R5.3"], "c01": ["R1.6"]},
+    "C07": {"c01": ["R1.2", "R1.6"], "c03": ["R3.2", "R3.3"], "c12": ["R12.2"], "c14": ["R14.1"]},
+    "C08": {"c16": ["R16.2", "R16.3"], "c03": ["R3.5", "R3.2"], "c07": ["R7.4"], "c12": ["R12.2"], "c13": ["R13.2"]},
+    "C09": {"c16": ["R16.2", "R16.3", "R16.4"], "c03": ["R3.2", "R3.5"], "c13": ["R13.3"], "c08": ["R8.1"]},
+    "C10": {"c17": ["R17.1"], "c08": ["R8.1"], "c04": ["R4.2"], "c12": ["R12.2"]},
+    "C11": {"c02": ["R2.5"], "c03": ["R3.1"], "c01": ["R1.10", "R1.2"]},
+    "C12": {"c07": ["R7.1"], "c05": ["R5.5"]},
+    "C13": {"c03": ["R3.1", "R3.2", "R3.4"], "c12": ["R12.4"], "c08": ["R8.3"], "c09": ["R9.2"]},
+    "C14": {"c07": ["R7.5", "R7.7"], "c03": ["R3.1", "R3.6"], "c08": ["R8.1"], "c09": ["R9.4"]},
+    "C15": {"c11": ["R11.1", "R11.3"], "c12": ["R12.3"]},
+    "C16": {"c01": ["R1.9"], "c09": ["R9.1"], "c05": ["R5.3"]},
+    "C17": {"c08": ["R8.4"], "c10": ["R10.3"]},
+    "C20": {"c03": ["R3.1"]},
+}
+
 
 def _worker(args):
     prop, cfgname, path = args
@@ -23,6 +46,20 @@ def _worker(args):
         mod = importlib.import_module("rules." + prop.lower())
         try:
             mod.check(R, F, P, cfgname)
+            # rules owned by other properties that this property depends on as well (same code, same facts)
+            shared = SHARED.get(prop, {})
+            for other, wanted in shared.items():
+                om = importlib.import_module("rules." + other)
+                R2 = Report(prop, "w")
+                om.check(R2, F, P, cfgname)
+                keep = [i for i in R2.instances if i["rule"].split("/")[0] in wanted]
+                R.instances.extend(keep)
+                for k_, v_ in R2.rule_docs.items():
+                    if k_ in wanted:
+                        R.rule_docs.setdefault(k_, v_ + "  [shared rule, owned by %s]" % other.upper())
+                R.floors.extend([fl for fl in R2.floors if fl[0].split("/")[0] in wanted])
+                for a_ in R2.assumptions:
+                    R.assume(a_)
         except common.AnchorMissing as e:
             R.inst("anchor-missing", "anchor:" + e.name, False,
                    "anchor function `%s` not found in configuration %s: it was renamed or removed. If the rename is benign, update rules/common.py (fail-closed: a rule that matches nothing would pass forever)." % (e.name, cfgname),
